@@ -5,6 +5,7 @@ import (
 	"go/constant"
 	"go/token"
 	"go/types"
+	"os"
 	"sort"
 	"strings"
 
@@ -924,4 +925,106 @@ func namedIntConsts(p *core.Program, pkg, name string) map[int64]string {
 		}
 	}
 	return out
+}
+
+// unaccountedGuard: the first branch that block b hangs on and that accept does not
+// recognise. Skipped: facts obtained by threading a flag, and the continuation tests of
+// loops (a branch one of whose edges leaves the loop it stands in). The rules that ask for
+// "the action is dominated by the stated test" are silent about a further conjunct; this
+// is the converse: the action hangs on nothing but the stated tests.
+func unaccountedGuard(fn *ssa.Function, b *ssa.BasicBlock, accept func(cond ssa.Value) bool) *ssa.If {
+	loops := map[*ssa.BasicBlock]map[*ssa.BasicBlock]bool{}
+	for _, h := range fn.Blocks {
+		if l := path.NaturalLoop(h); len(l) > 0 {
+			loops[h] = l
+		}
+	}
+	for _, g := range path.Guards(fn, b) {
+		if g.Synth || g.Threaded || g.If == nil || g.If.Block() == nil {
+			continue
+		}
+		ib := g.If.Block()
+		cont := false
+		for _, l := range loops {
+			if !l[ib] {
+				continue
+			}
+			for _, s := range ib.Succs {
+				if !l[s] {
+					cont = true
+				}
+			}
+		}
+		if cont {
+			continue
+		}
+		v := g.If.Cond
+		for {
+			if u, ok := v.(*ssa.UnOp); ok && u.Op == token.NOT {
+				v = u.X
+				continue
+			}
+			break
+		}
+		if !accept(v) {
+			if os.Getenv("GOGU_DEBUG") != "" {
+				fmt.Fprintf(os.Stderr, "unaccounted: %s in %s: %v = %T\n", fn.Name(), b, v, v)
+			}
+			return g.If
+		}
+	}
+	return nil
+}
+
+func isNilTest(v ssa.Value) bool {
+	bo, ok := v.(*ssa.BinOp)
+	if !ok || (bo.Op != token.EQL && bo.Op != token.NEQ) {
+		return false
+	}
+	cx, okX := bo.X.(*ssa.Const)
+	cy, okY := bo.Y.(*ssa.Const)
+	return (okX && cx.IsNil()) || (okY && cy.IsNil())
+}
+
+// sizeVsSmall: the container's own element count (len of a field of the receiver, or a
+// size()/Size()/Len()/Count() method of the module on it) compared with 0 or 1.
+func sizeVsSmall(fn *ssa.Function, v ssa.Value) bool {
+	bo, ok := v.(*ssa.BinOp)
+	if !ok {
+		return false
+	}
+	isSize := func(x ssa.Value) bool {
+		call, ok := path.Strip(x).(*ssa.Call)
+		if !ok {
+			return false
+		}
+		if bi, isB := call.Call.Value.(*ssa.Builtin); isB {
+			if bi.Name() != "len" {
+				return false
+			}
+			ld, isLd := path.Strip(call.Call.Args[0]).(*ssa.UnOp)
+			if !isLd || ld.Op != token.MUL {
+				return false
+			}
+			fa, isFa := ld.X.(*ssa.FieldAddr)
+			return isFa && rootedAtReceiver(fn, fa.X)
+		}
+		cal := call.Call.StaticCallee()
+		if cal == nil || len(call.Call.Args) != 1 || !rootedAtReceiver(fn, call.Call.Args[0]) {
+			return false
+		}
+		if o := cal.Origin(); o != nil {
+			cal = o
+		}
+		switch strings.ToLower(cal.Name()) {
+		case "size", "len", "count":
+			return true
+		}
+		return false
+	}
+	small := func(x ssa.Value) bool {
+		k, ok := path.IntConst(x)
+		return ok && (k == 0 || k == 1)
+	}
+	return (isSize(bo.X) && small(bo.Y)) || (isSize(bo.Y) && small(bo.X))
 }
